@@ -942,15 +942,12 @@ func (f *Field) ClearBit(rowID, colID uint64) (changed bool, err error) {
 	if len(f.viewMap) == 1 { // assuming no time views
 		return changed, nil
 	}
-	lastViewNameSize := 0
-	level := 0
 	skipAbove := maxInt
 	for _, view := range f.allTimeViewsSortedByQuantum() {
-		if lastViewNameSize < len(view.name) {
-			level++
-		} else if lastViewNameSize > len(view.name) {
-			level--
-		}
+		// Depth of the view in the quantum hierarchy, from the length of its
+		// time suffix: year=1, month=2, day=3, hour=4.  (Going from an hour
+		// view to the next year's view drops three levels at once.)
+		level := (len(view.name)-len(viewStandard)-1-4)/2 + 1
 		if level < skipAbove {
 			if changed, err = view.clearBit(rowID, colID); err != nil {
 				return changed, errors.Wrapf(err, "clearing on view %s", view.name)
@@ -961,7 +958,6 @@ func (f *Field) ClearBit(rowID, colID uint64) (changed bool, err error) {
 				skipAbove = maxInt
 			}
 		}
-		lastViewNameSize = len(view.name)
 	}
 
 	return changed, nil
@@ -999,7 +995,7 @@ func (f *Field) allTimeViewsSortedByQuantum() (me []*view) {
 		if lt, eq = groupCompare(me[i].name, me[j].name, year); eq {
 			if lt, eq = groupCompare(me[i].name, me[j].name, month); eq {
 				if lt, eq = groupCompare(me[i].name, me[j].name, day); eq {
-					lt = strings.Compare(me[i].name, me[j].name) > 0
+					lt = strings.Compare(me[i].name, me[j].name) < 0
 				}
 			}
 		}
